@@ -3,8 +3,8 @@ and payload / script generators."""
 import copy
 import random
 from . import common as C
-from . import types as T
-from .types import Field, Variant, Item
+from . import tys as T
+from .tys import Field, Variant, Item
 
 
 class Entry:
